@@ -42,15 +42,19 @@ func runC06(x *mc.X) {
 	rcc := mc.Pick(x, "resp.cache-control", c06RespCC)
 	expires := x.Choose("resp.expires", 2) == 1
 	reqKind := mc.Pick(x, "request", c06Reqs)
-	pre := mc.Pick(x, "store-state", []string{"empty", "fresh", "stale", "stale+swr", "dangling-index", "corrupt-entry"})
+	pre := mc.Pick(x, "store-state", []string{"empty", "fresh", "stale", "stale+swr", "dangling-index", "corrupt-entry", "stale-no-validator"})
 
 	w := world.New(world.Opt{})
 	defer w.Close()
 	oldTok := ""
 	if pre != "empty" {
 		ma := map[string]string{"fresh": "max-age=1000", "stale": "max-age=5", "stale+swr": "max-age=5, stale-while-revalidate=1000",
-			"dangling-index": "max-age=1000", "corrupt-entry": "max-age=1000"}[pre]
-		answer(w, RS{Status: 200, H: H("Cache-Control", ma, "ETag", `"old"`)})
+			"dangling-index": "max-age=1000", "corrupt-entry": "max-age=1000", "stale-no-validator": "max-age=5"}[pre]
+		ph := H("Cache-Control", ma, "ETag", `"old"`)
+		if pre == "stale-no-validator" {
+			ph = H("Cache-Control", ma)
+		}
+		answer(w, RS{Status: 200, H: ph})
 		o0 := get(w, U)
 		logObs(x, "prologue GET (origin: 200 "+ma+")", o0)
 		oldTok = o0.Tok
@@ -113,7 +117,7 @@ func runC06(x *mc.X) {
 	switch {
 	case tok == "":
 		why = ""
-	case status == 304 && (pre == "stale" || pre == "stale+swr"):
+	case status == 304 && (pre == "stale" || pre == "stale+swr" || pre == "stale-no-validator"):
 		why = "" // a 304 answering the cache's own validation request freshens the stored response (C08), it is not stored itself
 	case ccs.Has("no-store") || reqKind == "GET+no-store":
 		why = "no-store"
